@@ -280,14 +280,73 @@ func ruleN3(c *an.Ctx) {
 			continue
 		}
 		n++
-		// the sameSlice tests
+		// the identity tests: direct sameSlice(...) calls (false = the component changed), or the boolean
+		// result of a shared helper that returns !sameSlice(...) (true = changed)
 		var tests []*ssa.Call
+		var changedSignals []ssa.Value
 		an.Instrs(fn, func(in ssa.Instruction) {
-			if cl, ok := in.(*ssa.Call); ok && cl.Call.StaticCallee() != nil && cl.Call.StaticCallee().Name() == "sameSlice" {
-				tests = append(tests, cl)
+			cl, ok := in.(*ssa.Call)
+			if !ok || cl.Call.StaticCallee() == nil {
+				return
 			}
+			h := cl.Call.StaticCallee()
+			if h.Name() == "sameSlice" {
+				tests = append(tests, cl)
+				return
+			}
+			if h.Blocks == nil || h.Pkg != fn.Pkg {
+				return
+			}
+			// which results of h are "not sameSlice(...)"?
+			an.Instrs(h, func(hin ssa.Instruction) {
+				ret, ok := hin.(*ssa.Return)
+				if !ok {
+					return
+				}
+				for i := range ret.Results {
+					v := an.RetVal(ret, i)
+					if u, ok := v.(*ssa.UnOp); ok && u.Op == token.NOT {
+						if sc, ok := u.X.(*ssa.Call); ok && sc.Call.StaticCallee() != nil && sc.Call.StaticCallee().Name() == "sameSlice" {
+							for _, r := range an.Referrers(cl) {
+								if ex, ok := r.(*ssa.Extract); ok && ex.Index == i {
+									changedSignals = append(changedSignals, ex)
+								}
+							}
+							if h.Signature.Results().Len() == 1 {
+								changedSignals = append(changedSignals, cl)
+							}
+						}
+					}
+				}
+			})
 		})
-		c.Check("N3", "identity-test-present@"+name, fn.Pos(), len(tests) >= 1, "a FilterJson that rebuilds JSON must compare each component's filtered bytes with the input slice (sameSlice)")
+		c.Check("N3", "identity-test-present@"+name, fn.Pos(), len(tests)+len(changedSignals) >= 1, "a FilterJson that rebuilds JSON must compare each component's filtered bytes with the input slice (sameSlice, directly or through a helper that reports the difference)")
+		// a "changed" signal must feed the flag: it is an incoming value of a boolean phi (different = different || changed)
+		for _, sig := range changedSignals {
+			feeds := false
+			for _, r := range an.Referrers(sig) {
+				if ph, ok := r.(*ssa.Phi); ok && ph.Type().String() == "bool" {
+					feeds = true
+				}
+				if st, ok := r.(*ssa.Store); ok && st.Val == sig {
+					feeds = true
+				}
+				if bo, ok := r.(*ssa.BinOp); ok && bo.Op == token.OR {
+					feeds = true
+				}
+			}
+			if !feeds {
+				// or a branch on the signal whose true edge raises the flag
+				for _, b := range fn.Blocks {
+					for _, s2 := range b.Succs {
+						if an.EdgeHolds(b, s2, func(r an.Rel) bool { return r.Op == token.ILLEGAL && r.Truth && r.X == sig }) && flagSetOnPath(s2, b) {
+							feeds = true
+						}
+					}
+				}
+			}
+			c.Check("N3", "difference-recorded@"+name, sig.Pos(), feeds, "when a component's filtered bytes are not the input slice the 'different' flag must be raised")
+		}
 		// every edge where sameSlice is false makes the flag true: the successor's flag phi receives `true`
 		for _, t := range tests {
 			okSet := false
